@@ -15,7 +15,10 @@ EXTRA = {"c01-frag-result-last-datagram": ["C07"], "c08-r3-fragment-glue-le": ["
          "c08-r8-udp-reject-keeps-socket": ["C15"],
          "c02-r8-udp-lock-acquire-inside-try": ["C06"], "c07-r8-tcp-lock-acquire-inside-try": ["C06"],
          "c01-r9-tcp-glue-any-segment": ["C07"], "c08-r9-loop-change-undetected-open-loop": ["C10"],
-         "c08-r9-tcp-noka-always-reconnects": ["C10"], "c10-r9-tcp-noka-close-on-success-only": ["C08"]}
+         "c08-r9-tcp-noka-always-reconnects": ["C10"], "c10-r9-tcp-noka-close-on-success-only": ["C08"],
+         "c02-r10-udp-skip-to-aa55-in-continuation": ["C07"], "c04-r10-connect-retries-zero-becomes-three": ["C05"],
+         "c05-r10-tcp-deadline-includes-connect": ["C04"], "c12-r10-bytel-skip-moved-to-read": ["C16"],
+         "c16-r10-dt-sensors-extends-in-place": ["C14"]}
 only = sys.argv[1:]
 for d in sorted(glob.glob(os.path.join(ROOT, "seeded", "[!_]*"))):
     name = os.path.basename(d)
